@@ -286,7 +286,9 @@ def make_routine(b, g, name, level, roles, names, children, funs, entry=False, i
             body.append(['assign', var(racc), ['b', '+', var(racc), var(nm)]])
     r_ = routine(name, args, decls, body)
     if grouped:
-        r_['spec_raw_pre'] = [f'    integer, intent({role_intent}) :: ' + ', '.join(grouped)]
+        # raw text is not re-cased by the renderer: spell the names as the rest of the source does
+        gnames = [x.upper() if getattr(b, 'idcase', 'lower') == 'upper' else x for x in grouped]
+        r_['spec_raw_pre'] = [f'    integer, intent({role_intent}) :: ' + ', '.join(gnames)]
         b.use('decl_group')
     sig = {'name': name, 'roles': list(roles), 'names': dict(names), 'scalar_in': 'si', 'iacc': 'acc', 'racc': 'racc',
            'arrays': sorted(arrs), 'level': level, 'is_ep': is_ep}
@@ -326,6 +328,15 @@ def build(spec):
 
     ep = spec['ep']
     b.triggers = set()
+    gl = b.g('layout')
+    layout = GI.layout_from(gl)
+    layout['idcase'] = 'lower'
+    if F('case_upper'):
+        # upper case throughout with dic2p spelled as the source spells the names; 1 in 4: every occurrence in its own
+        # case with lower-case dic2p keys (loki compares some names case-sensitively and raises KeyError -> rejected)
+        layout['idcase'] = gl.pick(['upper', 'upper', 'upper', 'mixed'])
+        b.use('case_' + layout['idcase'])
+    b.idcase = layout['idcase']
     # ---- shape of the tree first (roles and dummy names of every routine), then the routines bottom-up
     g_leaf, g_mids = b.g('leaf0'), [b.g('mid0'), b.g('mid1')]
     nm = 2 if F('two_mids') else 1
@@ -425,17 +436,9 @@ def build(spec):
         vec['d'] = [gi.i(-8, 8) / 4.0 for _ in range(vals['B'])]
         vec['match'] = bool(match or not guarded)
         inputs.append(vec)
-    gl = b.g('layout')
-    layout = GI.layout_from(gl)
-    layout['idcase'] = 'lower'
-    if F('case_upper'):
-        # upper case throughout with dic2p spelled as the source spells the names; 1 in 4: every occurrence in its own
-        # case with lower-case dic2p keys (loki compares some names case-sensitively and raises KeyError -> rejected)
-        layout['idcase'] = gl.pick(['upper', 'upper', 'upper', 'mixed'])
-        b.use('case_' + layout['idcase'])
-        if layout['idcase'] == 'upper':
-            dic = {k.upper(): v for k, v in dic.items()}
-            dic_roles = {k.upper(): v for k, v in dic_roles.items()}
+    if layout['idcase'] == 'upper':
+        dic = {k.upper(): v for k, v in dic.items()}
+        dic_roles = {k.upper(): v for k, v in dic_roles.items()}
     entry_args = [decl('n', 'int', intent='in')]
     return {'files': [f], 'entry': {'module': 'pmod', 'name': 'kernel', 'args': entry_args},
             'inputs': inputs, 'layout': layout, 'dic2p': dic, 'dic_roles': dic_roles, 'entry_points': entry_points,
